@@ -126,6 +126,8 @@ enum Kind {
 	"proto/acme/v2/b.proto": `syntax = "proto2";
 package acme.v2;
 import "acme/v1/a.proto";
+import public "acme/v1/sub/c.proto";
+import weak "acme/v1beta1/d.proto";
 message B {
   optional acme.v1.A a = 1;
   optional double ratio = 2 [default = 1.5];
